@@ -414,55 +414,48 @@ def rule_arity(repo: Repo, rid: str = "C01.arity") -> RuleResult:
 
 # --------------------------------------------------------------------------- duplicate keys
 def rule_dupkeys(repo: Repo, rid: str, funcs: List[str]) -> RuleResult:
-    r = RuleResult(rid, "a dict keyed directly by the tokens of an argument list collapses repeated arguments",
+    """`funcs` are public entry points; the dict is whatever is handed over as `signature=` to a Predicate / PDDLFunction /
+    GroundedPredicate constructor, however it was built (comprehension, loop with stores, dict(zip(..)), helper function)."""
+    r = RuleResult(rid, "a signature dict keyed directly by the tokens of an argument list collapses repeated arguments",
                    "atoms with a repeated argument keep their arity and argument positions (or are rejected)")
     for spec in funcs:
-        f = repo.func(spec)
+        f = L.fn(repo, spec)
         p = L.prov(repo, f)
         found = False
-        for n in ast.walk(f.node):
-            key_iter = None
-            if isinstance(n, ast.DictComp) and len(n.generators) == 1:
-                gen = n.generators[0]
-                knames = C.target_names(gen.target)
-                if isinstance(n.key, ast.Name) and n.key.id in knames:
-                    key_iter = gen.iter
-                    anchor = n
-            if key_iter is None:
+        sig_args = []
+        for c in L.calls_in(f.node):
+            if callee_name(c) in ("Predicate", "PDDLFunction", "GroundedPredicate") and isinstance(c.func, ast.Name):
+                init = repo.find_method(callee_name(c), "__init__")
+                sg = L.arg_of(c, init, "signature")
+                if sg is not None:
+                    sig_args.append((c, sg))
+        for c, sg in sig_args:
+            ents = L.map_entries(p.trace(sg, keys=True))
+            keys = [e for k, e in ents if k == "key" and "askey" not in e]
+            tok = sorted({x[0].split(":", 1)[1] for x in keys if x[0].startswith("param:") and any(st.startswith("slice:1") for st in x)})
+            via_map = any(x[0] == "param:parameters_map" and "item" in x for x in keys)
+            if not tok and not via_map:
                 continue
-            tr = p.trace(key_iter)
-            from_tokens = any(any(s.startswith("slice:1") for s in x) for x in tr)
-            if not from_tokens or any("arg0:Counter" in x for x in tr):
-                continue  # not keyed by the argument tokens (or: the multiplicity bookkeeping itself)
             found = True
-            src = sorted({x[0].split(":", 1)[1] for x in tr if x[0].startswith("param:") and any(st.startswith("slice:1") for st in x)})
-            src = "/".join(src) or "tokens"
-            r.site(L.site(f, anchor, "token-keyed dict"))
+            src = "/".join(tok) if tok else "parameters_map"
+            r.site(L.site(f, c, "token-keyed signature"))
             # distinctness guard / multiplicity bookkeeping in the function?
-            counter = any(isinstance(c, ast.Call) and callee_name(c) == "Counter" for c in ast.walk(f.node))
-            guard = any(isinstance(c, ast.Compare) and any(isinstance(x, ast.Call) and callee_name(x) == "set" for x in ast.walk(c))
-                        and any(isinstance(x, ast.Call) and callee_name(x) == "len" for x in ast.walk(c)) for c in ast.walk(f.node))
+            counter = any(isinstance(x, ast.Call) and callee_name(x) == "Counter" for x in ast.walk(f.node))
+            guard = any(isinstance(x, ast.Compare) and any(isinstance(y, ast.Call) and callee_name(y) == "set" for y in ast.walk(x))
+                        and any(isinstance(y, ast.Call) and callee_name(y) == "len" for y in ast.walk(x)) for x in ast.walk(f.node))
             if guard:
                 r.ok({"function": f.qn, "distinctness_guard": True})
             elif counter:
-                r.fail(Finding(rid, f, f"dict-key-position:{src}", f"{unparse(anchor, 70)} keeps the multiplicity of repeated arguments "
-                               f"(Counter) but not their positions: (f a b a) is written back as (f a a b)", node=anchor))
+                r.fail(Finding(rid, f, f"dict-key-position:{src}", f"the signature handed to {unparse(c, 50)} keeps the multiplicity of repeated arguments "
+                               f"(Counter) but not their positions: (f a b a) is written back as (f a a b)", node=c))
+            elif via_map:
+                r.fail(Finding(rid, f, f"dict-key:{src}", f"the grounded signature handed to {unparse(c, 50)} is keyed by the argument value: "
+                               f"a call with a repeated object collapses two parameters into one", node=c))
             else:
-                r.fail(Finding(rid, f, f"dict-key:{src}", f"{unparse(anchor, 70)} is keyed by the argument tokens: a repeated argument "
-                               f"(r ?x ?x) collapses to one entry (arity and positions are lost)", node=anchor))
-        if not found:
-            # assignment form: d[token] = ... inside a loop over tokens
-            for n in ast.walk(f.node):
-                if isinstance(n, ast.Assign) and len(n.targets) == 1 and isinstance(n.targets[0], ast.Subscript):
-                    t = n.targets[0]
-                    tr = p.trace(t.slice)
-                    if any("attr:signature" in x or any(s.startswith("slice:1") for s in x) for x in tr) and isinstance(t.value, ast.Name) \
-                            and "signature" in t.value.id and any("item" in s or s == "elem" for x in tr for s in x):
-                        found = True
-                        r.site(L.site(f, n, "token-keyed dict store"))
-                        r.fail(Finding(rid, f, f"dict-key-store:{t.value.id}", f"{unparse(n, 70)} keys the grounded signature by the argument value: "
-                                       f"a call with a repeated object collapses two parameters into one", node=n))
-                        break
+                r.fail(Finding(rid, f, f"dict-key:{src}", f"the signature handed to {unparse(c, 50)} is keyed by the argument tokens: a repeated argument "
+                               f"(r ?x ?x) collapses to one entry (arity and positions are lost)", node=c))
+        if not sig_args:
+            raise AnalysisError(f"{spec}: no Predicate / PDDLFunction construction with a signature found")
         if not found:
             r.site(f.qn + " [no token-keyed dict]")
             r.ok({"function": f.qn, "token_keyed_dict": False})
